@@ -283,7 +283,7 @@ func (sw *SingleAddressWallet) SpendableOutputs() ([]types.SiacoinElement, error
 	return unspent, nil
 }
 
-func (sw *SingleAddressWallet) selectUTXOs(amount types.Currency, inputs int, useUnconfirmed bool) (types.ChainIndex, []types.SiacoinElement, types.Currency, error) {
+func (sw *SingleAddressWallet) selectUTXOs(amount types.Currency, inputs int, useUnconfirmed, v2 bool) (types.ChainIndex, []types.SiacoinElement, types.Currency, error) {
 	tip, elements, err := sw.store.UnspentSiacoinElements()
 	if err != nil {
 		return types.ChainIndex{}, nil, types.ZeroCurrency, err
@@ -300,7 +300,12 @@ func (sw *SingleAddressWallet) selectUTXOs(amount types.Currency, inputs int, us
 			tpoolSpent[sci.ParentID] = true
 			delete(tpoolUtxos, sci.ParentID)
 		}
+		// the unconfirmed output of a v1 transaction can only be spent by a
+		// v1 transaction and vice versa
 		for i, sco := range txn.SiacoinOutputs {
+			if v2 {
+				break
+			}
 			tpoolUtxos[txn.SiacoinOutputID(i)] = types.SiacoinElement{
 				ID:            txn.SiacoinOutputID(i),
 				StateElement:  types.StateElement{LeafIndex: types.UnassignedLeafIndex},
@@ -314,6 +319,9 @@ func (sw *SingleAddressWallet) selectUTXOs(amount types.Currency, inputs int, us
 			delete(tpoolUtxos, sci.Parent.ID)
 		}
 		for i := range txn.SiacoinOutputs {
+			if !v2 {
+				break
+			}
 			sce := txn.EphemeralSiacoinOutput(i)
 			tpoolUtxos[sce.ID] = sce.Move()
 		}
@@ -446,7 +454,7 @@ func (sw *SingleAddressWallet) FundTransaction(txn *types.Transaction, amount ty
 	sw.mu.Lock()
 	defer sw.mu.Unlock()
 
-	_, selected, inputSum, err := sw.selectUTXOs(amount, len(txn.SiacoinInputs), useUnconfirmed)
+	_, selected, inputSum, err := sw.selectUTXOs(amount, len(txn.SiacoinInputs), useUnconfirmed, false)
 	if err != nil {
 		return nil, err
 	}
@@ -509,7 +517,7 @@ func (sw *SingleAddressWallet) FundV2Transaction(txn *types.V2Transaction, amoun
 	sw.mu.Lock()
 	defer sw.mu.Unlock()
 
-	tip, selected, inputSum, err := sw.selectUTXOs(amount, len(txn.SiacoinInputs), useUnconfirmed)
+	tip, selected, inputSum, err := sw.selectUTXOs(amount, len(txn.SiacoinInputs), useUnconfirmed, true)
 	if err != nil {
 		return types.ChainIndex{}, nil, err
 	}
